@@ -976,7 +976,7 @@ func (d *Debugger) NextTx() *dbg.DbgMsgTx {
 
 func (d *Debugger) hNextTx() *dbg.DbgMsgTx {
 	idx := d.hNextTxIdx()
-	if idx < 0 {
+	if idx < 0 || idx >= len(d.C.MsgTxs) {
 		return nil
 	}
 	return d.C.MsgTxs[idx]
